@@ -346,10 +346,134 @@ Definition rt_ok (c : rt_case) : bool :=
   forallb (fun d => d <=? rt_interval_ms c + rt_slack_ms c) (rt_delays_ms c)
   && rt_delivered c && rt_totals_ok c.
 
-(* what the harness emits: an event-history case or a real-time case *)
-Inductive upx_case := UC (c : up_case) | RT (c : rt_case).
+
+(* compact printing of long point lists by the harness: a run of [n] points with consecutive
+   elapsed times from [first] and the same digest and length (big-backlog histories) *)
+Fixpoint prun_aux (k : nat) (first dig len : N) : list pt :=
+  match k with
+  | O => []
+  | S k' => (first, dig, len) :: prun_aux k' (first + 1) dig len
+  end.
+Definition prun (first n dig len : N) : list pt := prun_aux (N.to_nat n) first dig len.
+
+(* ------------------------------------------------------------------------------------------ *)
+(* Sent-storage failures.  Upstream.flush as it is: totalDataPoints is advanced, the sequence
+   number consumed (toUpstreamChunk), the buffer cleared and HookBefore queued BEFORE
+   u.sent.Store is called; when Store returns an error flush returns it and the chunk is never
+   transmitted.  So a failing Store changes nothing in the state; it removes the chunk from the
+   wire and makes an explicit Flush return the error (flushLoop ignores it on a size cut or a
+   tick; Close logs it and still sends the close request).  [F] = the sequence numbers whose
+   Store fails (the k-th cut calls Store with sequence number k). *)
+Definition memN (x : N) (l : list N) : bool := existsb (N.eqb x) l.
+Definition sf_outs (F : list N) (outs : list uout) : list uout :=
+  filter (fun o => match o with OChunk s _ _ => negb (memN s F) | _ => true end) outs.
+Definition sf_lost (F : list N) (outs : list uout) : bool :=
+  existsb (fun o => match o with OChunk s _ _ => memN s F | _ => false end) outs.
+Definition sf_ret (F : list N) (o : uop) (outs : list uout) (ret : N) : N :=
+  match o with Flush => if sf_lost F outs then 1 else ret | _ => ret end.
+
+Fixpoint urun_sf (F : list N) (s : ustate) (ops : list uop) : ures :=
+  match ops with
+  | [] => mkRes s [] [] []
+  | o :: ops' =>
+      let r := ustep s o in
+      let s' := fst (fst r) in
+      let rest := urun_sf F s' ops' in
+      mkRes (r_state rest) (sf_outs F (snd (fst r)) ++ r_outs rest) (snap s' :: r_snaps rest)
+            (sf_ret F o (snd (fst r)) (snd r) :: r_rets rest)
+  end.
+
+Definition sf_corr (F : list N) (c : up_case) : bool :=
+  if uc_sequential c then
+    let r := urun_sf F (uinit (uc_pol c) (uc_rev0 c)) (uc_ops c) in
+    list_beq _ N.eqb (r_rets r) (uc_rets c)
+    && list_beq _ snap_eqb (r_snaps r) (uc_snaps c)
+    && list_beq _ chunk_eqb (chunks_of (r_outs r)) (uc_chunks c)
+    && list_beq _ (fun a b => (fst a =? fst b) && list_beq _ group_eqb (snd a) (snd b))
+                (sendhooks_of (r_outs r)) (uc_sendhooks c)
+    && list_beq _ pairN_eqb (ackhooks_of (r_outs r)) (uc_ackhooks c)
+    && list_beq _ pairN_eqb (closereq_of (r_outs r)) (uc_close c)
+  else true.
+
+(* C01 side under Store failures, on the observation only: the cuts are what the send hooks saw
+   (one per cut, lost ones included); the broker has exactly the cuts whose Store succeeded *)
+Fixpoint hookseqs_from (n : N) (hs : list (N * list (N * list pt))) : bool :=
+  match hs with
+  | [] => true
+  | h :: hs' => (fst h =? n) && hookseqs_from (n + 1) hs'
+  end.
+Definition sf_c01_ok (F : list N) (c : up_case) : bool :=
+  let ids := ids_of_ops (uc_ops c) in
+  let hooks := uc_sendhooks c in
+  let n := N.of_nat (length hooks) in
+  let total := fold_right (fun h a => buf_count (snd h) + a) 0 hooks in
+  if closed_ok (uc_ops c) (uc_rets c) then
+    hookseqs_from 1 hooks
+    && list_beq _ N.eqb (map (fun ch => fst (fst ch)) (uc_chunks c))
+                (filter (fun s => negb (memN s F)) (map fst hooks))
+    && forallb (fun ch => existsb (fun h => hook_matches_chunk h ch) hooks) (uc_chunks c)
+    && forallb (fun id => pts_eqb (concat (map (fun h => buf_pts id (snd h)) hooks))
+                                  (accepted_pts id (uc_ops c) (uc_rets c))) ids
+    && forallb (fun h => forallb (fun g => existsb (N.eqb (fst g)) ids) (snd h)) hooks
+    && forallb (fun ch => forallb (group_alias_ok (handed_out c)) (snd (fst ch))) (uc_chunks c)
+    && list_beq _ pairN_eqb (uc_close c) [(total, n)]
+    && negb (uc_chunk_after_close c)
+    && list_beq _ pairN_eqb (uc_ackhooks c) (results_of_ops (uc_ops c))
+  else true.
+
+(* C20 walk under Store failures: as c20_walk, except that a Flush that returns an error may have
+   cut (the Store of that cut failed): then the buffer is empty and one sequence number is used *)
+Fixpoint c20_walk_sf (pol : policy) (ops : list uop) (rets : list N) (snaps : list snapshot)
+         (acc pend : N) (pending : bool) (pseq : N) : bool :=
+  match ops, rets, snaps with
+  | o :: ops', r :: rets', sn :: snaps' =>
+      let sq := fst (fst sn) in let tot := snd (fst sn) in let bufc := buf_count (snd sn) in
+      let cut := negb (sq =? pseq) in
+      let '(acc', pend', pending', ok) :=
+        match o with
+        | Write _ ps =>
+            if r =? 0 then
+              let acc1 := acc + N.of_nat (length ps) in
+              let pend1 := pend + sum_len ps in
+              let must := is_flush pol pend1 in
+              (acc1, (if cut then 0 else pend1), negb cut,
+               Bool.eqb cut must && (sq =? (if cut then pseq + 1 else pseq)))
+            else (acc, pend, pending, negb cut)
+        | Flush =>
+            if r =? 0 then (acc, 0, false, (sq =? (if pending then pseq + 1 else pseq)) && (bufc =? 0) && (tot =? acc))
+            else if cut then (acc, 0, false, pending && (sq =? pseq + 1) && (bufc =? 0) && (tot =? acc))
+            else (acc, pend, pending, true)
+        | Tick => (acc, (if cut then 0 else pend), (if cut then false else pending), sq =? (if pending then pseq + 1 else pseq))
+        | Close => (acc, 0, false, (sq =? (if pending then pseq + 1 else pseq)))
+        | Alias _ | Results _ => (acc, pend, pending, negb cut)
+        end in
+      ok && (tot + bufc <=? acc') && c20_walk_sf pol ops' rets' snaps' acc' pend' pending' sq
+  | [], _, _ => true
+  | _, _, _ => false
+  end.
+Definition sf_c20_ok (c : up_case) : bool :=
+  (if uc_sequential c then c20_walk_sf (uc_pol c) (uc_ops c) (uc_rets c) (uc_snaps c) 0 0 false 0 else true)
+  && forallb (fun ch => negb (N.of_nat (length (snd (fst ch))) =? 0)) (uc_chunks c).
+
+Record sf_case := mkSfCase {
+  sf_fail : list N;          (* input: the k-th Store call fails (once each) *)
+  sf_failed_seqs : list N;   (* observed: sequence numbers passed to the failing calls, ascending *)
+  sf_up : up_case
+}.
+(* a Store call beyond the last cut of the history never happens *)
+Definition sf_judge (x : sf_case) : N :=
+  let c := sf_up x in
+  let last := u_seq (r_state (urun_sf (sf_fail x) (uinit (uc_pol c) (uc_rev0 c)) (uc_ops c))) in
+  (if list_beq _ N.eqb (filter (fun k => k <=? last) (sf_fail x)) (sf_failed_seqs x) && sf_corr (sf_fail x) c then 0 else 1)
+  + (if sf_c01_ok (sf_failed_seqs x) c then 0 else 2)
+  + (if sf_c20_ok c then 0 else 4).
+
+(* what the harness emits: an event-history case, a real-time case, or an event-history case
+   with failing sent-storage Stores *)
+Inductive upx_case := UC (c : up_case) | RT (c : rt_case) | SF (c : sf_case).
 Definition upx_judge (x : upx_case) : N :=
   match x with
   | UC c => up_judge c
   | RT c => (if rt_corr c then 0 else 1) + (if rt_totals_ok c then 0 else 2) + (if rt_ok c then 0 else 4)
+  | SF c => sf_judge c
   end.
